@@ -34,13 +34,19 @@ RULE = (
     "matrices vs an independent IAU-76/FK5 model at 00:00:00 and 23:59:59, rotation angle across every day boundary "
     "vs omega*(1 s + dUT1 step read from the table), TT conversion at 4 instants; (b) one VERIF_SEED-chosen day swept "
     "every minute, one hour and the last/first minutes of a day swept every second, half-second pairs; (c) ECI<->ECEF "
-    "on radius x lat x lon x velocity x corner dates; (d) geodetic, SEZ, az/el<->ra/dec, RSW/NTW lattices; (e) "
+    "on radius x lat x lon x velocity x corner dates; (d) geodetic, SEZ, az/el<->ra/dec, RSW/NTW lattices; (d2) every "
+    "function taking an observer state (razel2radec, radec2razel, eci2razel, eci2radec, getSlantRangeVector, "
+    "radarObs2eciPosition, eci2sez/sez2eci with full states) for observers that MOVE in the Earth-fixed frame: orbit "
+    "radius x inclination x argument of latitude with the true inertial velocity, one eccentric leg per radius x "
+    "inclination, surface/air movers with an ECEF velocity; x elevation (incl. looking down) x azimuth x range x rates, "
+    "and fixed inertial targets, against an own composition including the rate terms; (e) "
     "dayOfYear for every day 1896..2104, seconds2hms for every TT value s+dAT+32.184 and s+dAT+33 (s = every whole "
     "second of the day, dAT = every TAI offset of the table), utc2TerrestrialTime at every such whole-minute TT +-1 s, "
     "every 10th second and every anomaly, GMST/GAST lattices; (f) rot1/2/3, skewSymmetric, dotRot identities; an "
     "exception raised inside the implementation on a lattice input is a violation. non-trivial = date is a "
     "day/month/year/leap boundary (or the instant crosses a minute/hour/day roll-over in UT1 or TT), or the "
-    "position/site lies on an axis, pole, equator or antimeridian, or (helpers) the argument sits on a branch point; "
+    "position/site lies on an axis, pole, equator or antimeridian, or (helpers) the argument sits on a branch point, or "
+    "(d2) the observer's Earth-fixed speed is >= 0.01 km/s; "
     "distinct by construction (lattice points). VERIF_SEED only shifts the swept day/hour and the phase of the "
     "secondary grids."
 )
@@ -55,6 +61,10 @@ ASSUMPTIONS = [
     "julianDateToDatetime/datetimeToJulianDate are the subject of C05 (used only for whole-second instants)",
     "teme2ecef evaluates GMST at the UTC Julian date (dUT1 neglected, float JD resolution 3e-9 rad): taken as designed",
     "positions inside the Earth (r < 43 km, ecef2lla branch D<0) are outside the property's quantifier and not driven",
+    "for an observer that moves in the Earth-fixed frame the topocentric-horizon (SEZ) axes are those of the observer's "
+    "instantaneous geodetic sub-point, held fixed in ECEF (relative ECEF position and velocity rotated by one constant "
+    "matrix, no basis-rate term), as getSlantRangeVector / razel2radec are written (Vallado eq 4-6): taken as designed; "
+    "the sub-point comes from the check's own iterative geodetic inverse",
 ]
 EXPECT_MIN_NONTRIVIAL = 5000
 
@@ -183,6 +193,15 @@ def items(tier, seed):
     for t in rz_dates:
         for chunk in fw.chunked(sites, 3):
             out.append(("razel", _iso(t), chunk, seed))
+    # observers that move in the Earth-fixed frame: quick = every observer at one of the three dates (cyclic over the
+    # chunks, so every date meets every radius and every inclination); thorough = every observer at every date
+    mv_dates = [CORNER_DATES[2], CORNER_DATES[5], CORNER_DATES[12]]
+    if tier == "thorough":
+        mv_dates.append(_dates("quick", seed)[-1])
+    for i, chunk in enumerate(fw.chunked(_observers(tier, seed), 3)):
+        for k, t in enumerate(mv_dates):
+            if tier == "thorough" or k == i % len(mv_dates):
+                out.append(("razel_moving", _iso(t), chunk, seed))
     return out
 
 
@@ -209,6 +228,13 @@ def bounds(tier, seed):
         "lons_deg": LONS,
         "velocities": VELS,
         "sites": _sites(tier, seed),
+        "moving_observers": {
+            "orbit_radii_km": ORB_RADII, "inclinations_deg": ORB_INCS, "arguments_of_latitude_deg": ORB_ARGLATS,
+            "eccentric_leg_speed_factor_and_flight_path_deg": list(ORB_ECC_SHAPE), "surface_air_movers": [list(m) for m in MOVERS],
+            "count": len(_observers(tier, seed)), "elevations_deg": ELS_SPACE, "azimuths_deg": AZS_MOVING + [(seed * 53.7 + 11.0) % 360.0],
+            "ranges_km": RNGS, "rates": [list(r) for r in RATES], "inertial_targets": [n for n, _ in TARGETS_ECI],
+            "dates_per_observer": 1 if tier == "quick" else 4,
+        },
         "dayOfYear_years": [1896, 2104],
     }
 
@@ -1049,6 +1075,190 @@ def _run_razel(res, item):
                         res.observe(np.array([float(v) for v in got]))
 
 
+# ------------------------------------------------------------------- az/el <-> ra/dec for observers that MOVE in ECEF
+# Every function of transforms/methods.py that takes an observer *state* (razel2radec, radec2razel, eci2razel, eci2radec,
+# getSlantRangeVector, radarObs2eciPosition; eci2sez/sez2eci at the observer's sub-point with full states) is driven
+# with observers whose Earth-fixed velocity is not zero: satellites on circular and eccentric orbits carrying their
+# true inertial velocity, and surface/air movers defined by an ECEF velocity.  The ground-site lattice above has
+# observer ECEF velocity == 0 identically, so a dropped / mis-transported observer velocity is invisible there.
+MU_EARTH = 398600.4415
+ORB_RADII = [RE + 400.0, 7500.0, 26560.0, 42164.0, 10 * RE]
+ORB_INCS = [0.0, 28.5, 63.4, 90.0, 98.7, 180.0]
+ORB_ARGLATS = [0.0, 90.0, 200.0]  # third one is shifted by the seed phase
+ORB_ECC_SHAPE = (1.25, 20.0)  # speed / circular speed, flight-path angle (deg): outbound leg of an eccentric orbit
+MOVERS = [  # geodetic lat, lon (deg), altitude (km), Earth-fixed velocity (km/s): aircraft / ship / sounding rocket
+    (45.0, 179.999, 11.0, 0.20, -0.10, 0.05),
+    (-33.4, 149.1, 0.02, -0.008, 0.012, 0.0),
+    (0.0, -90.0, 120.0, 0.5, 0.5, 2.0),
+]
+ELS_SPACE = [-60.0, -5.0, 0.0, 30.0, 89.999]
+AZS_MOVING = [0.0, 90.0, 270.0, 359.9999]  # + one seed azimuth; the azimuth seams themselves are the ground lattice's job
+TARGETS_ECI = [  # fixed inertial target states, the other construction direction (ECI -> own ECEF -> own SEZ)
+    ("near_geo", [-21000.0, 36000.0, 4500.0, -2.6, -1.55, 0.3]),
+    ("leo", [6800.0, 1200.0, -900.0, -1.9, 7.1, 2.8]),
+    ("meo_retro", [3000.0, -20000.0, 17000.0, -3.1, -1.9, -1.7]),
+]
+
+
+def _observers(tier, seed):
+    """Observer specs (plain lists): every radius x inclination x argument of latitude, one eccentric leg per
+    radius x inclination, and the surface/air movers."""
+    ph = (seed * 37) % 89
+    out = []
+    k = 0
+    for rad in ORB_RADII:
+        for inc in ORB_INCS:
+            for j, u0 in enumerate(ORB_ARGLATS):
+                u = u0 + (ph * 1.3 if j == 2 else 0.0)
+                out.append(["orbit", rad, inc, float((k * 67 + ph) % 360), u, 1.0, 0.0])
+                k += 1
+            out.append(["orbit", rad, inc, float((k * 67 + ph) % 360), 310.0 - ph * 0.7, ORB_ECC_SHAPE[0], ORB_ECC_SHAPE[1]])
+            k += 1
+    out += [["mover", *m] for m in MOVERS]
+    return out
+
+
+def _observer_state(spec, pnr, w, omega):
+    """(eci state, ecef state) of an observer spec by own formulae / own composition."""
+    if spec[0] == "orbit":
+        _, rad, inc_d, raan_d, u_d, kfac, fpa_d = spec
+        inc, raan, u, fpa = inc_d * DEG, raan_d * DEG, u_d * DEG, fpa_d * DEG
+        nhat = np.array([math.cos(raan), math.sin(raan), 0.0])  # ascending node
+        mhat = np.array([-math.cos(inc) * math.sin(raan), math.cos(inc) * math.cos(raan), math.sin(inc)])  # 90 deg ahead
+        rhat = math.cos(u) * nhat + math.sin(u) * mhat
+        that = -math.sin(u) * nhat + math.cos(u) * mhat
+        speed = kfac * math.sqrt(MU_EARTH / rad)
+        eci = np.concatenate((rad * rhat, speed * (math.cos(fpa) * that + math.sin(fpa) * rhat)))
+        return eci, _compose_eci2ecef(eci, pnr, w, omega)
+    _, la, lo, alt, vx, vy, vz = spec
+    ecef = np.array(fr.geodetic_to_ecef(la * DEG, lo * DEG, alt) + [vx, vy, vz], dtype=float)
+    return _compose_ecef2eci(ecef, pnr, w, omega), ecef
+
+
+def _flip_s(sez):
+    """SEZ -> (north, east, zenith): the frame in which azimuth is the ordinary atan2 angle."""
+    return [-sez[0], sez[1], sez[2], -sez[3], sez[4], sez[5]]
+
+
+def _mid_slack(mid):
+    """Extra (angle, angular-rate) allowance for a result the implementation routes through an intermediate spherical
+    six-tuple `mid` (razel2radec -> radec2razel, eci2razel -> razel2radec).
+
+    cartesian2spherical forms ang1 = arcsin(z/rho): rounding of z/rho (1.1e-16) is amplified by 1/cos(ang1) ->
+    d = 2e-15/cos(ang1_mid) (same allowance as in _cmp_polar).  spherical2cartesian then turns d into a direction error d
+    and a velocity error rho*d*(|rho_dot|/rho + |ang1_rate| + |ang2_rate|) (derivative of its velocity rows with respect
+    to ang1); ang2_rate_mid = transverse rate / cos(ang1_mid) is large near the pole of the intermediate angles.
+    Negligible (<= 1e-17) away from that pole; measured 1.7e-11 rad/s at cos = 5e-5 where this bound gives 1e-9.
+    The defects this lattice is for (observer velocity dropped) are >= 2.5e-7 rad/s and >= 1e-2 km/s in range-rate.
+    """
+    mid = [float(v) for v in mid]
+    d = 2e-15 / max(math.cos(mid[1]), 1e-6)
+    return d, d * (abs(mid[3]) / mid[0] + abs(mid[4]) + abs(mid[5]))
+
+
+def _run_razel_moving(res, item):
+    _, iso, observers, seed = item
+    t = _dt(iso)
+    rp, pnr, w = _impl_mats(t)
+    omega = _own_omega(t)
+    azs = AZS_MOVING + [(seed * 53.7 + 11.0) % 360.0]
+    jd = float(datetimeToJulianDate(t))
+    for spec in observers:
+        spec = list(spec)
+        kind = "orbit" if spec[0] == "orbit" else "surface_mover"
+        obs_eci, obs_ecef = _observer_state(spec, pnr, w, omega)
+        lat, lon, _alt = fr.ecef_to_geodetic_iter(*[float(v) for v in obs_ecef[:3]])
+        ecef_speed = float(np.linalg.norm(obs_ecef[3:]))
+        # the mechanism: the observer's Earth-fixed velocity enters every rate term
+        moving = ecef_speed >= 0.01
+        rad = float(np.linalg.norm(obs_eci[:3]))
+
+        def sig(fn, kind=kind):
+            return f"C04/razel_moving/{fn}/{kind}"
+
+        # tolerances as in the ground-site lattice (recovered sub-point latitude <= 1.4e-10 rad at 10 Earth radii:
+        # angles to 2e-9; range rigid: 1e-8 km + 1e-12 relative for the subtraction of 6e4-km positions; rates: the
+        # observer velocity (<= 11 km/s) cancels to rounding 1e-14, range-rate is rotation invariant: 1e-9 km/s).
+        # The seeded class (observer ECEF velocity dropped / not transported) shows as >= 1e-2 km/s in the rates.
+        rtol_pos = 1e-8 + 1e-12 * rad
+        for el_d in ELS_SPACE:
+            for az_d in azs:
+                for rng in RNGS:
+                    for rr, er, ar in RATES:
+                        el, az = el_d * DEG, az_d * DEG
+                        case = {"t": iso, "observer": spec, "el": el_d, "az": az_d, "rng": rng, "rates": [rr, er, ar]}
+                        razel = (rng, el, az % (2 * math.pi), rr, er, ar)
+                        sez = fr.razel_to_sez(rng, el, az, rr, er, ar)
+                        d_ecef = fr.sez_to_ecef(sez[:3], lat, lon) + fr.sez_to_ecef(sez[3:], lat, lon)
+                        tgt_ecef = obs_ecef + np.array(d_ecef)
+                        tgt_eci = _compose_ecef2eci(tgt_ecef, pnr, w, omega)
+                        exp = fr.polar_from_cartesian(tgt_eci - obs_eci)
+                        got = M.razel2radec(rng, el, az, rr, er, ar, obs_eci, t)
+                        res.case("razel_moving/razel2radec_reference", case, _cmp_polar(got, exp, rtol_pos, 2e-9, 1e-9, 1e-11),
+                                 nontrivial=moving, signature=sig("razel2radec"), observed=[float(v) for v in got], expected=list(exp), item=item)
+                        rt = M.radec2razel(*[float(v) for v in got], obs_eci, t)
+                        da, dr = _mid_slack(exp)
+                        res.case("razel_moving/radec2razel_inverse", case, _cmp_polar(rt, razel, rtol_pos, 2e-9 + da, 1e-9, 1e-11 + dr),
+                                 nontrivial=moving, signature=sig("radec2razel_inverse"), observed=[float(v) for v in rt], expected=list(razel), item=item)
+                        g1 = M.radec2razel(*exp, obs_eci, t)
+                        res.case("razel_moving/radec2razel_reference", case, _cmp_polar(g1, razel, rtol_pos, 2e-9, 1e-9, 1e-11),
+                                 nontrivial=moving, signature=sig("radec2razel"), observed=[float(v) for v in g1], expected=list(razel), item=item)
+                        g2 = M.eci2razel(tgt_eci, obs_eci, t)
+                        res.case("razel_moving/eci2razel", case, _cmp_polar(g2, razel, rtol_pos, 2e-9, 1e-9, 1e-11),
+                                 nontrivial=moving, signature=sig("eci2razel"), observed=[float(v) for v in g2], expected=list(razel), item=item)
+                        g3 = M.eci2radec(tgt_eci, obs_eci, t)
+                        da, dr = _mid_slack(razel)
+                        res.case("razel_moving/eci2radec", case, _cmp_polar(g3, exp, rtol_pos, 2e-9 + da, 1e-9, 1e-11 + dr),
+                                 nontrivial=moving, signature=sig("eci2radec"), observed=[float(v) for v in g3], expected=list(exp), item=item)
+                        g4 = np.asarray(M.getSlantRangeVector(obs_eci, tgt_eci, t), dtype=float)
+                        res.case("razel_moving/getSlantRangeVector", case, g4.shape == (6,) and _maxabs(g4[:3], sez[:3]) <= rtol_pos + 2e-9 * rng and _maxabs(g4[3:], sez[3:]) <= 1e-9 + 2e-9 * (2 + rng * 3e-3),
+                                 nontrivial=moving, signature=sig("getSlantRangeVector"), observed=g4, expected=sez, item=item)
+                        if rr == 1.5:
+                            # full states through eci2sez / sez2eci at the observer's sub-point (own lat/lon: exact inputs)
+                            full_sez = fr.ecef_to_sez(list(tgt_ecef[:3]), lat, lon) + fr.ecef_to_sez(list(tgt_ecef[3:]), lat, lon)
+                            scale = float(np.linalg.norm(tgt_ecef[:3]))
+                            g6 = np.asarray(M.eci2sez(tgt_eci, lat, lon, t), dtype=float)
+                            res.case("razel_moving/eci2sez_full_state", case, g6.shape == (6,) and _maxabs(g6[:3], full_sez[:3]) <= 4e-12 * scale and _maxabs(g6[3:], full_sez[3:]) <= 1e-12 + 1e-15 * scale,
+                                     nontrivial=moving, signature=sig("eci2sez"), observed=g6, expected=full_sez, item=item)
+                            g7 = np.asarray(M.sez2eci(np.array(full_sez), lat, lon, t), dtype=float)
+                            res.case("razel_moving/sez2eci_full_state", case, g7.shape == (6,) and _maxabs(g7[:3], tgt_eci[:3]) <= 4e-12 * scale and _maxabs(g7[3:], tgt_eci[3:]) <= 1e-12 + 1e-15 * scale,
+                                     nontrivial=moving, signature=sig("sez2eci"), observed=g7, expected=tgt_eci, item=item)
+                            if t.microsecond == 0:
+                                ob = SimpleNamespace(range_km=rng, elevation_rad=el, azimuth_rad=az, julian_date=jd, sensor_eci=obs_eci)
+                                g5 = np.asarray(M.radarObs2eciPosition(ob), dtype=float)
+                                res.case("razel_moving/radarObs2eciPosition", case, g5.shape == (3,) and _maxabs(g5, tgt_eci[:3]) <= rtol_pos + 2e-9 * rng,
+                                         nontrivial=moving, signature=sig("radarObs2eciPosition"), observed=g5, expected=tgt_eci[:3], item=item)
+                res.observe(np.array([float(v) for v in got]), g4)
+        # the other construction direction: inertial target states -> own ECEF -> own SEZ at the own sub-point
+        for name, tgt in TARGETS_ECI:
+            tgt = np.array(tgt, dtype=float)
+            case = {"t": iso, "observer": spec, "target": name}
+            rel_ecef = _compose_eci2ecef(tgt, pnr, w, omega) - obs_ecef
+            sez = fr.ecef_to_sez(list(rel_ecef[:3]), lat, lon) + fr.ecef_to_sez(list(rel_ecef[3:]), lat, lon)
+            razel = fr.polar_from_cartesian(_flip_s(sez))
+            radec = fr.polar_from_cartesian(tgt - obs_eci)
+            rng = razel[0]
+            ptol = 1e-8 + 1e-12 * (rad + float(np.linalg.norm(tgt[:3])))
+            g = M.eci2razel(tgt, obs_eci, t)
+            res.case("razel_moving/target_eci/eci2razel", case, _cmp_polar(g, razel, ptol, 2e-9, 1e-9, 1e-11), nontrivial=moving,
+                     signature=sig("target_eci/eci2razel"), observed=[float(v) for v in g], expected=list(razel), item=item)
+            g = M.eci2radec(tgt, obs_eci, t)
+            da, dr = _mid_slack(razel)
+            res.case("razel_moving/target_eci/eci2radec", case, _cmp_polar(g, radec, ptol, 2e-9 + da, 1e-9, 1e-11 + dr), nontrivial=moving,
+                     signature=sig("target_eci/eci2radec"), observed=[float(v) for v in g], expected=list(radec), item=item)
+            g = M.razel2radec(*razel, obs_eci, t)
+            res.case("razel_moving/target_eci/razel2radec", case, _cmp_polar(g, radec, ptol, 2e-9, 1e-9, 1e-11), nontrivial=moving,
+                     signature=sig("target_eci/razel2radec"), observed=[float(v) for v in g], expected=list(radec), item=item)
+            g = M.radec2razel(*radec, obs_eci, t)
+            res.case("razel_moving/target_eci/radec2razel", case, _cmp_polar(g, razel, ptol, 2e-9, 1e-9, 1e-11), nontrivial=moving,
+                     signature=sig("target_eci/radec2razel"), observed=[float(v) for v in g], expected=list(razel), item=item)
+            g = np.asarray(M.getSlantRangeVector(obs_eci, tgt, t), dtype=float)
+            vscale = float(np.linalg.norm(rel_ecef[3:]))
+            res.case("razel_moving/target_eci/getSlantRangeVector", case, _maxabs(g[:3], sez[:3]) <= ptol + 2e-9 * rng and _maxabs(g[3:], sez[3:]) <= 1e-9 + 2e-9 * vscale,
+                     nontrivial=moving, signature=sig("target_eci/getSlantRangeVector"), observed=g, expected=sez, item=item)
+            res.observe(g)
+
+
 def _run_spherical(res, item):
     """spherical2cartesian / cartesian2spherical incl. the on-axis branch (angles from the velocity heading)."""
     for rho in (1.0, 42164.0):
@@ -1181,6 +1391,7 @@ _RUNNERS = {
     "geodetic": _run_geodetic,
     "sez": _run_sez,
     "razel": _run_razel,
+    "razel_moving": _run_razel_moving,
     "rswntw": _run_rswntw,
 }
 
